@@ -51,7 +51,7 @@ type bscCfg struct {
 	maxPending       int
 	maxRecents       int
 	extraLens        []int
-	maxHead          uint64 // 0: head block numbers 1..8
+	minHead, maxHead uint64 // 0: head block numbers 1..8
 }
 
 func newBscWorld(cfg bscCfg) *bscWorld {
@@ -75,7 +75,11 @@ func newBscWorld(cfg bscCfg) *bscWorld {
 	if cfg.maxHead != 0 {
 		maxHead = cfg.maxHead
 	}
-	rt.Assume(head.Height.RevisionHeight >= 1 && head.Height.RevisionHeight <= maxHead) // bound on block numbers (one decimal digit in signer keys)
+	minHead := uint64(1)
+	if cfg.minHead != 0 {
+		minHead = cfg.minHead
+	}
+	rt.Assume(head.Height.RevisionHeight >= minHead && head.Height.RevisionHeight <= maxHead) // bound on block numbers (one decimal digit in signer keys)
 	epoch := cfg.epochs[rt.IntRange("epochChoice", 0, len(cfg.epochs)-1)]
 	w.cs = ClientState{Header: head, ChainId: rt.U64("chainID"), Epoch: epoch, BlockInteval: 3, Validators: vbytes, TrustingPeriod: rt.U64("trustingPeriod")}
 	cdc := rt.Codec()
@@ -98,6 +102,9 @@ func newBscWorld(cfg bscCfg) *bscWorld {
 	for i := 0; i < k; i++ {
 		h := rt.U64("recent.height")
 		rt.Assume(h >= 1 && h <= head.Height.RevisionHeight)
+		if cfg.minHead > 1 {
+			rt.Assume(h+4 > head.Height.RevisionHeight) // high block numbers: only entries near the window (older ones are pruned)
+		}
 		if _, dup := w.rec[h]; dup {
 			rt.Assume(false)
 		}
@@ -130,6 +137,12 @@ func VerifC09Seal() {
 // the window reaches below block 0 (the recorded finding H9 lives here and nowhere else).
 func VerifC09SealYoungChain() {
 	c09Header(bscCfg{name: "young", minVals: 4, maxVals: 4, epochs: []uint64{200}, maxPending: 1, maxRecents: 1, extraLens: []int{97}, maxHead: 2})
+}
+
+// VerifC09SealDecimalBoundary: four validators at heads 8..11 with one recent signer: block numbers whose decimal rendering
+// in the recent-signer keys changes length (9 -> 10), where numeric order and key order differ.
+func VerifC09SealDecimalBoundary() {
+	c09Header(bscCfg{name: "decimal", minVals: 4, maxVals: 4, epochs: []uint64{200}, maxPending: 1, maxRecents: 1, extraLens: []int{97}, minHead: 8, maxHead: 11})
 }
 
 // VerifC09Structure: extra-data shapes against epoch / non-epoch blocks.
